@@ -904,9 +904,26 @@ func pureEntries(w *World, pkg *ssa.Package, nt *nodeTypes) []*ssa.Function {
 
 // rulePure: the read-only API does not write through its inputs.
 func rulePure(w *World, r *Report, pkg *ssa.Package, pf *patchFamily) {
+	rulePureEntries(w, r, pkg, pf, nil)
+}
+
+// rulePureEntries: only the named entry points ("Type.Method") when only != nil.
+func rulePureEntries(w *World, r *Report, pkg *ssa.Package, pf *patchFamily, only map[string]bool) {
 	const rule = "R-PURE"
 	nt := newNodeTypes(w, pkg, "v2")
 	entries := pureEntries(w, pkg, nt)
+	if only != nil {
+		var sel []*ssa.Function
+		for _, e := range entries {
+			if e.Signature.Recv() != nil && only[typeName(e.Signature.Recv().Type())+"."+e.Name()] {
+				sel = append(sel, e)
+			}
+		}
+		if len(sel) != len(only) {
+			infra("R-PURE: %d of %d requested entry points found", len(sel), len(only))
+		}
+		entries = sel
+	}
 	family := map[*ssa.Function]bool{}
 	for f := range pf.member {
 		family[f] = true
@@ -947,7 +964,9 @@ func rulePure(w *World, r *Report, pkg *ssa.Package, pf *patchFamily) {
 		r.Bad(rule, key, site.Leaf, fmt.Sprintf("may write into memory reachable from %s: %s at %s%s — a later call on the same value sees the change", who, site.What, site.Leaf, via))
 	}
 	r.Note("R-PURE analysed %d functions reachable from %d read-only entry points", len(p.sums), len(entries))
-	rulePurePatch(w, r, pf, family)
+	if only == nil {
+		rulePurePatch(w, r, pf, family)
+	}
 }
 
 // rulePurePatch: inside the patch family no write goes through the hunk's own
